@@ -195,6 +195,22 @@ Acts ==
 Next == \E x \in Acts : Do(x)
 Spec == Init /\ [][Next]_vars
 
+\* the same relation as an explicit disjunction (what spec/proofs/Deploy_proofs.tla reasons about)
+NextD ==
+  \/ \E s \in Slots, m \in {"local", "pair"} : GenKey(s, m)
+  \/ \E s \in Slots : SendPlain(s)
+  \/ \E f \in {"pie", "pw"}, s \in Slots, k \in {"local", "secret"}, u \in {"own", "other"} : SendWrapped(f, s, k, u)
+  \/ \E s \in Slots, u \in {"own", "other"} : SendSeal(s, u)
+  \/ \E i \in 1..MaxBlobs, h \in {"flip", "relabel"} : TamperBlob(i, h)
+  \/ \E i \in 1..MaxBlobs : Import(i)
+  \/ \E k \in Kinds, s \in Slots : Forget(k, s)
+  \/ \E s \in Slots, k \in Kinds, c \in ClaimSet, n \in NoteSet, t \in Slots : Issue(s, k, c, n, t)
+  \/ \E i \in 1..MaxNet, j \in 1..MaxNet : Refoot(i, j)
+  \/ \E i \in 1..MaxNet : Relabel(i)
+  \/ \E i \in 1..MaxNet : Verify(i)
+SpecD == Init /\ [][NextD]_vars
+DispatchIsDisjunction == [][NextD]_vars
+
 \* ---- what a deployment relies on ----------------------------------------------
 TypeOK ==
   /\ gen \in [Slots -> {"none", "local", "pair"}]
